@@ -25,20 +25,23 @@ cfg("x_w2_fork", "W=2, a chain with one side branch from any block, every vote p
 cfg("x_w3_fork", "W=3, a chain with one side branch from any block (<= 10 blocks), every vote pattern.",
     MaxLeaves=2, MaxBlocks=10, Timeouts="{0}")
 cfg("x_w3_params", "W=3, one chain of 11 blocks, every vote pattern, the whole parameter menu\n(custom threshold, minimum activation height, always-active height, timeouts).",
-    MaxBlocks=11, MaxHeight=11, Timeouts="{0, 4}", Thrs="{0, 3}", MinHs="{0, 9}", Alwayss="{0, 8}", MaxTime=16)
+    MaxBlocks=11, MaxHeight=11, Timeouts="{0, 4}", Thrs="{0, 3}", MinHs="{0, 10}", Alwayss="{0, 8}", MaxTime=16)
 cfg("x_w3_times", "W=3, one chain of 9 always-signalling blocks, every timestamp pattern with steps -1/+1/+2,\nstart and timeout menus around the reachable median times.",
     MaxBlocks=9, MaxHeight=9, Ver="Ver1Sig", DtChoices="{0, 2, 3}", DtBase=1, Starts="{1, 3}", Timeouts="{0, 3, 5}", Thrs="{0, 3}", MaxTime=18)
 cfg("x_w4_linear", "W=4, threshold 3, one chain of 13 blocks, every vote pattern.",
     W=4, NetThr=3, MaxBlocks=13, MaxHeight=13, Starts="{0, 3}", Timeouts="{0}", MaxTime=16)
 cfg("x_k2", "Two deployments (one asked for by block acceptance itself), W=2, NextVer on.",
-    W=2, NetThr=2, K=2, Implicit="{1}", Starts="{0, 1}", Timeouts="{0}", MaxHeight=6, MaxBlocks=6, Ver="Ver2Few", NextVerOn="TRUE")
+    W=2, NetThr=2, K=2, Implicit="{1}", Starts="{0, 1}", Timeouts="{0}", MaxHeight=7, MaxBlocks=7, Ver="Ver2Few", NextVerOn="TRUE")
 
 # ---- small recording configurations: state graph dumped, paths replayed ---
 cfg("g_w2_small", "Recording; W=2; 16 deployment definitions (start, timeout, minimum activation height, always-active height);\ngraph dumped and its transitions replayed on the real code.",
     W=2, NetThr=2, Starts="{0, 1}", Timeouts="{0, 3}", MinHs="{0, 6}", Alwayss="{0, 3}", MaxHeight=6, MaxBlocks=6,
     Record="TRUE", QueryAll="FALSE", NextVerOn="FALSE", CheckAll="TRUE")
+cfg("g_w2_fork", "Recording; W=2; a chain with one side branch from any block (6 blocks in all); graph dumped, paths replayed.",
+    W=2, NetThr=2, Starts="{0}", Timeouts="{0}", MaxHeight=6, MaxBlocks=6, MaxLeaves=2,
+    Record="TRUE", QueryAll="FALSE", NextVerOn="FALSE", CheckAll="TRUE")
 cfg("g_w3_small", "Recording; W=3; one deployment asked for by block acceptance; graph dumped, a covering sample of paths replayed.",
-    Implicit="{1}", Starts="{0}", Timeouts="{0, 4}", MaxHeight=9, MaxBlocks=9,
+    Implicit="{1}", Starts="{0}", Timeouts="{0, 4}", MinHs="{0, 9}", MaxHeight=9, MaxBlocks=9,
     Record="TRUE", QueryAll="FALSE", NextVerOn="FALSE", CheckAll="TRUE")
 
 # ---- large recording configurations: random simulation ---------------------
